@@ -214,10 +214,10 @@ class Bitlist(BitsView):
         else:
             set_last = self.get_backing().setter(target)
             chunk = self.get_backing().getter(target)
-            next_backing = set_last(_new_chunk_with_bit(chunk, ll & 0xff, boolean(False)))
+            next_backing = set_last(_new_chunk_with_bit(chunk, i & 0xff, boolean(False)))
 
-        # if possible, summarize
-        can_summarize = (target & 1) == 0
+        # if possible, summarize: only when the chunk of the popped bit became empty
+        can_summarize = (target & 1) == 0 and (i & 0xff) == 0
         if can_summarize:
             # summarize to the highest node possible.
             # I.e. the resulting target must be a right-hand, unless it's the only content node.
